@@ -271,15 +271,21 @@ inline void apply_parent_signals(const ParentSignals &ps)
     memset(&sa, 0, sizeof(sa));
     sigemptyset(&sa.sa_mask);
     sigaddset(&sa.sa_mask, SIGUSR2);
-    sa.sa_handler = ps.sigchld == 1 ? SIG_IGN : noop_handler;
+    sa.sa_handler = ps.sigchld == 1 ? SIG_IGN : ps.sigchld == 3 ? SIG_DFL : noop_handler;
     sa.sa_flags = ps.sigchld == 1 ? 0 : (SA_NOCLDWAIT | SA_RESTART);
     sigaction(SIGCHLD, &sa, nullptr);
   }
 }
 
 // a start whose only fault makes fork() itself fail never has a child
-inline void maybe_touch_sigchld(fw::Tape &t, ParentSignals &ps, const std::vector<FaultSpec> &faults)
+inline void maybe_touch_sigchld(fw::Tape &t, ParentSignals &ps, const std::vector<FaultSpec> &faults, int scenario = -1)
 {
+  // fork mode without a fault: the child is this very process and reports its own dispositions, flags
+  // included; it stays until the parent has put SIGCHLD back (2 = handler + SA_NOCLDWAIT, 3 = SIG_DFL + SA_NOCLDWAIT)
+  if (faults.empty() && scenario == S_FORK && t.coin()) {
+    ps.sigchld = 2 + (int) t.pick(2);
+    return;
+  }
   if (faults.size() == 1 && faults[0].fn == VS_FORK && faults[0].side == VS_PARENT && faults[0].kind == VS_FK_ERRNO && t.coin()) ps.sigchld = 1 + (int) t.pick(2);
 }
 // ... and that fault is then addressed as "the first fork()", not by its place
@@ -321,6 +327,7 @@ struct Obs {
   int natural_errno = 0;           // for natural-failure scenarios, from the harness's own attempt
   bool fork_child_reported = false;
   uint64_t child_sigblk = 0, child_sigign = 0, child_sigcgt = 0;
+  std::string child_sigflags;      // fork-mode child: "sig:flags ..." for dispositions with flags left on
   std::vector<int> child_fds;
   std::string setup_error;
 };
@@ -414,8 +421,23 @@ inline void fork_child_report(const std::string &path)
   out += "fds";
   for (auto &kv : hz::snapshot_self_fds()) out += " " + std::to_string(kv.first);
   out += "\n";
+  // dispositions in full: a default handler that still carries the parent's
+  // flags (SA_NOCLDWAIT on SIGCHLD changes what a child's own children do) is
+  // not the default disposition
+  out += "SigFlags";
+  for (int s = 1; s <= 31; s++) {
+    if (s == SIGKILL || s == SIGSTOP) continue;
+    struct sigaction sa;
+    if (sigaction(s, nullptr, &sa) != 0) continue;
+    unsigned long fl = (unsigned long) sa.sa_flags & ~0x04000000ul;  // SA_RESTORER is the C library's own
+    if (fl != 0) out += " " + std::to_string(s) + ":" + std::to_string(fl);
+  }
+  out += "\n";
   write_file(path + ".tmp", out);
   rename((path + ".tmp").c_str(), path.c_str());
+  // the parent may ask us to stay until it has put its own SIGCHLD handling back
+  if (access((path + ".wait").c_str(), F_OK) == 0)
+    for (int i = 0; i < 5000 && access((path + ".go").c_str(), F_OK) != 0; i++) usleep(1000);
 }
 
 // The kernel's answer for the same launch, obtained by the harness itself.
@@ -628,6 +650,7 @@ inline Obs run(const RunConfig &cfg, const std::string &root)
     vf.value = f.value;
     vs_add_fault(vf);
   }
+  if (fork_mode && cfg.parent_signals.sigchld) detail::write_file(fork_report + ".wait", "1");
   CallerState before = snapshot_caller();
   int r = reproc_start(p, argv, b.opt);
   if (fork_mode && r == 0) {
@@ -637,7 +660,10 @@ inline Obs run(const RunConfig &cfg, const std::string &root)
     _exit(0);
   }
   CallerState after = snapshot_caller();
-  if (cfg.parent_signals.sigchld) signal(SIGCHLD, SIG_DFL);  // the harness waits for children from here on
+  if (cfg.parent_signals.sigchld) {
+    signal(SIGCHLD, SIG_DFL);  // the harness waits for children from here on
+    if (fork_mode) detail::write_file(fork_report + ".go", "1");
+  }
   o.r = r;
   for (int i = 0; i < vs_sh->nfaults; i++) {
     o.fired.push_back(vs_sh->faults[i].fired != 0);
@@ -669,6 +695,12 @@ inline Obs run(const RunConfig &cfg, const std::string &root)
     o.child_sigblk = a;
     o.child_sigign = bb;
     o.child_sigcgt = c;
+    size_t pf = rep.find("SigFlags");
+    if (pf != std::string::npos) {
+      size_t e = rep.find('\n', pf);
+      o.child_sigflags = rep.substr(pf + 8, e == std::string::npos ? std::string::npos : e - pf - 8);
+      while (!o.child_sigflags.empty() && o.child_sigflags[0] == ' ') o.child_sigflags.erase(0, 1);
+    }
     size_t p0 = rep.find("fds");
     if (p0 != std::string::npos) {
       const char *q = rep.c_str() + p0 + 3;
@@ -1059,7 +1091,7 @@ inline bool decode_sweep(long sweep, fw::Tape &t, RunConfig &cfg, const std::str
       if (fp.side == side && fp.fn == fn && seen++ == ordinal) {
         cfg.faults.push_back(make_fault(fp, choice));
         kind = "single-fault";
-        maybe_touch_sigchld(t, cfg.parent_signals, cfg.faults);
+        maybe_touch_sigchld(t, cfg.parent_signals, cfg.faults, cfg.scenario);
         address_fork_by_ordinal(cfg.parent_signals, cfg.faults);
         return true;
       }
@@ -1071,7 +1103,7 @@ inline bool decode_sweep(long sweep, fw::Tape &t, RunConfig &cfg, const std::str
     cfg.scenario = e.scenario;
     if (e.point >= 0) cfg.faults.push_back(make_fault(tb.points[(size_t) e.scenario][(size_t) e.point], e.choice));
     kind = e.point < 0 ? "fault-free" : "single-fault";
-    maybe_touch_sigchld(t, cfg.parent_signals, cfg.faults);
+    maybe_touch_sigchld(t, cfg.parent_signals, cfg.faults, cfg.scenario);
     address_fork_by_ordinal(cfg.parent_signals, cfg.faults);
     return true;
   }
@@ -1161,7 +1193,7 @@ inline void decode_random(fw::Tape &t, RunConfig &cfg, std::string &kind)
   static const int limits[] = { 64, 64, 48, 256 };
   cfg.nofile_limit = limits[t.pick(4)];
   kind = nf == 0 ? "fault-free" : nf == 1 ? "single-fault" : "fault-pair";
-  maybe_touch_sigchld(t, cfg.parent_signals, cfg.faults);
+  maybe_touch_sigchld(t, cfg.parent_signals, cfg.faults, cfg.scenario);
   address_fork_by_ordinal(cfg.parent_signals, cfg.faults);
 }
 
